@@ -10,9 +10,13 @@ TCONFIGS = [("CliffordCircuit", m, v) for m in ("plain", "layers", "circuit") fo
 
 def probes_for(n):
     gens = enum.idmap(n)
-    lst = [w[:-1] + [(w[-1] + j) % 4] for j, w in enumerate(gens)] + [[2] * n + [1], [1, 3, 2][:n] + [0] * (n - 3) + [3]]
-    # a signed mixed tableau and a signed pure one
-    st = [[3, 0, 0, 2], [1, 1, 0, 0], [0, 2, 3, 2], [1, 0, 0, 0], [3, 3, 0, 2], [0, 1, 1, 0]] if n == 3 else None
+    lst = [w[:-1] + [(w[-1] + j) % 4] for j, w in enumerate(gens)] + [[2] * n + [1], ([1, 3, 2] * n)[:n] + [3]]
+    # a signed rank-1 tableau
+    if n == 3:
+        st = [[3, 0, 0, 2], [1, 1, 0, 0], [0, 2, 3, 2], [1, 0, 0, 0], [3, 3, 0, 2], [0, 1, 1, 0]]
+    else:
+        st = [[3 if j == i else 0 for j in range(n)] + [2 * (i % 2)] for i in range(n)] + \
+             [[1 if j == i else 0 for j in range(n)] + [0] for i in range(n)]
     return gens, lst, st
 
 
@@ -24,7 +28,7 @@ class C09(Prop):
     chunk = 600
     want = ("fwd", "seq")
     assumptions = [
-        "programs: every sequence of at most 3 (quick) / 4 (thorough) gates over the 14-gate alphabet of MC_Circuit on N=3 (named gates, generator gates, forward-map, backward-map-only and two-map gates, local and global); longer programs are not enumerated",
+        "programs: every sequence of at most 3 (quick) / 4 (thorough) gates over the 14-gate alphabet of MC_Circuit on N=3 (named gates, generator gates, forward-map, backward-map-only and two-map gates, local and global), plus TLC-simulated random programs of length 10 (and prefixes) on N=4,5,6",
         "TLC proves on its own transcription of take() that the packing is legal and that layer order denotes the program; any legal packing recorded from the code is accepted",
         "configurations {CliffordCircuit, Circuit} x {uncompiled, layers compiled, circuit compiled} x {original, copy, composed halves}: all of them per program in thorough, a rotating subset of 3 in quick",
     ]
@@ -35,6 +39,14 @@ class C09(Prop):
         cfg = "MC_Circuit_t.cfg" if self.tier == "thorough" else "MC_Circuit_q.cfg"
         self.model("MC_Circuit", cfg, name="programs", print_file=pf, timeout=3000)
         self.alpha, self.progs = circ.read_programs(pf)
+        # longer random programs on more qubits (TLC -simulate with the transcribed packing)
+        self.sim = []
+        nb = 250 if self.tier == "thorough" else 40
+        for n in (4, 5, 6):
+            r = self.model("MC_CircuitSim", "MC_CircuitSim_n%d.cfg" % n, name="circuitsim_n%d" % n, workers=1,
+                           simulate="num=%d" % nb, depth=10, seed=self.seed + 120 + n, collect=True)
+            for pr in circ.read_sim_programs(r.printed):
+                self.sim.append((n, pr["items"]))
 
     def scenarios(self):
         thorough = self.tier == "thorough"
@@ -49,10 +61,17 @@ class C09(Prop):
             if k % (4 if thorough else 9) == 0:
                 c = TCONFIGS[k % len(TCONFIGS)]
                 yield {"k": "circuit", "ids": ids, "cfg": list(c), "pkg": "torch"}
+        for j, (n, items) in enumerate(self.sim):
+            for cut in (len(items), 4 + j % 4):
+                sub = items[:cut]
+                for t in range(3 if not thorough else 6):
+                    yield {"k": "circuit", "items": sub, "n": n, "cfg": list(CONFIGS[(j * 5 + t * 4 + cut) % len(CONFIGS)]), "pkg": "py"}
+                if j % 5 == 0:
+                    yield {"k": "circuit", "items": sub, "n": n, "cfg": list(TCONFIGS[(j + cut) % len(TCONFIGS)]), "pkg": "torch"}
 
     def execute(self, scn, be):
-        n = 3
-        items = [self.alpha[i] for i in scn["ids"]]
+        n = scn.get("n", 3)
+        items = scn["items"] if "items" in scn else [self.alpha[i] for i in scn["ids"]]
         cls, mode, variant = scn["cfg"]
         rec = {"op": "circuit", "n": n, "cls": cls, "mode": mode, "variant": variant,
                "prog": [circ.wire_item(it) for it in items], "probes": []}
